@@ -25,8 +25,8 @@ def _tlc_parallel(ctx, jobs, workers=4):
     the runs are small, start-up dominated).  Every run must pass (spec-alone failure = machinery)."""
     from concurrent.futures import ThreadPoolExecutor
     with ThreadPoolExecutor(max_workers=len(jobs)) as ex:
-        futs = [ex.submit(ctx.tlc, SPEC, j[0], j[1], defines=j[2], timeout=2400, workers=workers, count=False,
-                          **(j[3] if len(j) > 3 else {})) for j in jobs]
+        futs = [ex.submit(ctx.tlc, SPEC, j[0], j[1], defines=j[2], timeout=2400, count=False,
+                          **dict({"workers": workers}, **(j[3] if len(j) > 3 else {}))) for j in jobs]
         out = [f.result() for f in futs]
     for (m, cfg, d), r in zip([j[:3] for j in jobs], out):
         if not r.ok:
@@ -136,31 +136,22 @@ def _crosscheck_protos(ctx, sigtable):
 
 def check_c17(ctx):
     q = ctx.tier == "quick"
-    runs = [("raw", 4, 0), ("guided", 5, 1), ("guided", 7, 0), ("chars", 4, 0)] if q else \
-           [("raw", 5, 0), ("guided", 6, 1), ("guided", 8, 0), ("chars", 4, 0)]
-    # seeded random character strings beyond the exhaustive bound (TLC -simulate, every prefix is a case)
-    sim = {"MODE": "chars", "MAXLEN": 9, "MAXDEV": 0}
-    simkw = {"mode": "sim", "sim_num": 1500 if q else 15000, "sim_depth": 10}
-    ctx.cov["rule"] = ("cases = (a) every token string over {K1,K0,KX,KE,(,),!,&&,||,',',S,B,I,J} up to the raw bound, "
-                       "(b) grammar-directed token strings with at most one deviation / none up to the longer bounds, each with "
-                       "the verdict ok|error of Layer P (TLC also checks the rewriting pipeline model against it on every string); "
-                       "(c) every character string over a 15-symbol byte alphabet up to the bound, plus VERIF_SEED-seeded TLC "
-                       "simulations of longer ones, in several contexts (verdict: any, never panic/hang); (d) every documented primitive x every argument-type vector of length 0..4 and, "
-                       "for the documented types, every combination of value classes (IP, regexp, hash range, time, time-of-day) "
-                       "with verdict ok|error|gray. Each is rendered (canonical + seeded variants) and passed to condition.Build "
-                       "under recover + watchdog; built conditions are also Matched once. distinct = distinct abstract inputs.")
+    bounds = {"MAXRAW": 4, "MAXGUIDED": 5, "MAXPLAIN": 6, "MAXCHARS": 4} if q else \
+             {"MAXRAW": 5, "MAXGUIDED": 6, "MAXPLAIN": 8, "MAXCHARS": 4}
+    ctx.cov["constants"]["Gen_Syntax"] = dict(bounds, MaxDev=1)
+    jobs = [("GenCondSyntax", "Gen_Syntax.cfg",
+             dict(bounds, MODES='"raw","guided","plain","chars"', INV="MSatisfiesP"), {"workers": vlib.NCPU})]
+    # seeded random character strings beyond the exhaustive bound (TLC -simulate; the printing invariant is
+    # evaluated on every successor of every step: about num x workers x 9 x 15 strings, ~40k quick / ~300k thorough)
+    sim = dict(bounds, MODES='"chars"', MAXCHARS=9, INV="")
+    simkw = {"mode": "sim", "sim_num": 75 if q else 550, "sim_depth": 10, "workers": 4}
+    jobs.append(("GenCondSyntax", "Gen_Syntax.cfg", sim, simkw))
+    ctx.cov["constants"]["Gen_Syntax_chars_simulated"] = {"MaxChars": 9, "sim_num": simkw["sim_num"], "sim_depth": 10}
     seen = set()
     cases = []
-    jobs = []
-    for mode, maxlen, maxdev in runs:
-        d = {"MODE": mode, "MAXLEN": maxlen, "MAXDEV": maxdev}
-        ctx.cov["constants"]["Gen_Syntax_%s_%d_%d" % (mode, maxlen, maxdev)] = d
-        jobs.append(("GenCondSyntax", "Gen_Syntax.cfg", d))
     d = {"MAXARGS": 4}
     ctx.cov["constants"]["Gen_Calls"] = d
-    jobs.append(("GenCondSyntax", "Gen_Syntax.cfg", sim, simkw))
-    ctx.cov["constants"]["Gen_Syntax_chars_simulated"] = dict(sim, **simkw)
-    jobs.append(("GenCondCalls", "Gen_Calls.cfg", d))
+    jobs.append(("GenCondCalls", "Gen_Calls.cfg", d, {"workers": 2}))
     results = _tlc_parallel(ctx, jobs)
     for r in results[:-1]:
         for c in r.cases:
